@@ -28,6 +28,9 @@ pub trait Suite: RandomizedCiphersuite {
         (sum_key, share)
     }
 
+    /// what a derived `Debug` on a secret newtype would print for this scalar
+    fn scalar_debug(s: &Sc<Self>) -> String;
+
     /// A second, fully external verifier where one exists in the registry.
     fn ext_verify(_vk: &[u8], _msg: &[u8], _sig: &[u8]) -> Option<bool> {
         None
@@ -94,6 +97,9 @@ impl Suite for frost_ed25519::Ed25519Sha512 {
     const SCALAR_LEN: usize = 32;
     const ELEM_LEN: usize = 32;
     const SIG_LEN: usize = 64;
+    fn scalar_debug(s: &Sc<Self>) -> String {
+        format!("{s:?}")
+    }
     fn indep_challenge(r: &[u8], pk: &[u8], msg: &[u8]) -> Sc<Self> {
         // RFC 9591 6.1: H2(m) = SHA-512(m) mod L, little-endian (RFC 8032 compatible)
         let d = Sha512::digest(cat3(r, pk, msg));
@@ -117,6 +123,9 @@ impl Suite for frost_ristretto255::Ristretto255Sha512 {
     const SCALAR_LEN: usize = 32;
     const ELEM_LEN: usize = 32;
     const SIG_LEN: usize = 64;
+    fn scalar_debug(s: &Sc<Self>) -> String {
+        format!("{s:?}")
+    }
     fn indep_challenge(r: &[u8], pk: &[u8], msg: &[u8]) -> Sc<Self> {
         // RFC 9591 6.2: H2(m) = SHA-512(contextString || "chal" || m) mod order, little-endian
         let mut h = Sha512::new();
@@ -134,6 +143,9 @@ impl Suite for frost_ed448::Ed448Shake256 {
     const SCALAR_LEN: usize = 57;
     const ELEM_LEN: usize = 57;
     const SIG_LEN: usize = 114;
+    fn scalar_debug(s: &Sc<Self>) -> String {
+        format!("{s:?}")
+    }
     fn indep_challenge(r: &[u8], pk: &[u8], msg: &[u8]) -> Sc<Self> {
         // RFC 9591 6.3: H2(m) = SHAKE256("SigEd448" || 0x00 || 0x00 || m, 114) mod order (LE)
         use sha3::digest::{ExtendableOutput, Update, XofReader};
@@ -154,6 +166,9 @@ impl Suite for frost_p256::P256Sha256 {
     const SCALAR_LEN: usize = 32;
     const ELEM_LEN: usize = 33;
     const SIG_LEN: usize = 65;
+    fn scalar_debug(s: &Sc<Self>) -> String {
+        format!("{s:?}")
+    }
     fn indep_challenge(r: &[u8], pk: &[u8], msg: &[u8]) -> Sc<Self> {
         h2f_sha256::<Self>("FROST-P256-SHA256-v1", "chal", &cat3(r, pk, msg))
     }
@@ -166,6 +181,9 @@ impl Suite for frost_secp256k1::Secp256K1Sha256 {
     const SCALAR_LEN: usize = 32;
     const ELEM_LEN: usize = 33;
     const SIG_LEN: usize = 65;
+    fn scalar_debug(s: &Sc<Self>) -> String {
+        format!("{s:?}")
+    }
     fn indep_challenge(r: &[u8], pk: &[u8], msg: &[u8]) -> Sc<Self> {
         h2f_sha256::<Self>("FROST-secp256k1-SHA256-v1", "chal", &cat3(r, pk, msg))
     }
@@ -179,6 +197,9 @@ impl Suite for frost_secp256k1_tr::Secp256K1Sha256TR {
     const ELEM_LEN: usize = 33;
     const SIG_LEN: usize = 64;
     const TAPROOT: bool = true;
+    fn scalar_debug(s: &Sc<Self>) -> String {
+        format!("{s:?}")
+    }
     fn indep_challenge(r: &[u8], pk: &[u8], msg: &[u8]) -> Sc<Self> {
         // BIP-340: e = int(hash_{BIP0340/challenge}(bytes(r) || bytes(P) || m)) mod n; r, P x-only.
         let rx = if r.len() == 33 { &r[1..] } else { r };
